@@ -81,7 +81,15 @@ def worker(task: Tuple[Any, ...]) -> Stats:
     tree = Tree(FIRST, SYMBOLS, steps, EXTRA)
     st = Stats()
     for hist in tree.level(root, depth):
-        specs = H.materialize(hist, row_order=row_order)
+        if _dev == "tz":
+            # every timestamp at -05:00, starting 21:30 on Dec 31 local time (= 02:30 on Jan 1 UTC): after every +1y step an
+            # event's own year differs from its UTC year
+            from datetime import datetime, timezone
+
+            hist = tuple((it[0], it[1], -300) for it in hist)
+            specs = H.materialize(hist, row_order=row_order, base=datetime(2021, 1, 1, 2, 30, 0, tzinfo=timezone.utc))
+        else:
+            specs = H.materialize(hist, row_order=row_order)
         if specs is None:
             continue
         tos, froms = dates_of_interest(specs)
@@ -145,10 +153,12 @@ def plan(tier: str) -> List[Dict[str, Any]]:
         return [
             {"name": "multi-year tree, 3 methods", "schedules": sch, "steps": STEPS, "depth": 3, "dev": 0, "group": 1},
             {"name": "multi-year tree, depth 4, hifo", "schedules": [((1970, "hifo"),)], "steps": STEPS, "depth": 4, "dev": 0, "group": 1, "from_depth": 4},
+            {"name": "timestamps at -05:00 on New Year's Eve (own year != UTC year)", "schedules": [((1970, "fifo"),)], "steps": STEPS, "depth": 3, "dev": "tz", "group": 1},
         ]
     return [
         {"name": "multi-year tree, 4 methods", "schedules": sch + [((1970, "lofo"),)], "steps": STEPS, "depth": 4, "dev": 0, "group": 1},
         {"name": "sheet order reversed", "schedules": sch, "steps": STEPS, "depth": 3, "dev": 0, "group": 1, "row_order": "reverse"},
+        {"name": "timestamps at -05:00 on New Year's Eve (own year != UTC year)", "schedules": sch, "steps": STEPS, "depth": 3, "dev": "tz", "group": 1},
         {"name": "multi-year tree, depth 5, fifo+hifo", "schedules": [((1970, "fifo"),), ((1970, "hifo"),)], "steps": STEPS, "depth": 5, "dev": 0, "group": 1, "from_depth": 5},
     ]
 
@@ -177,7 +187,7 @@ def main(tier: str, budget_s: Optional[float] = None) -> int:
         "samples": total.samples[:5],
     }
     common.write_evidence(PROP, tier, LEVEL, coverage, time.time() - t0, new, assumptions=[
-        "single time zone in this driver; the long/short flag of a fraction is taken from RP2 (C05 decides its correctness)",
+        "one UTC offset per run (UTC, or -05:00 on New Year's Eve so that own year != UTC year); the long/short flag of a fraction is taken from RP2 (C05 decides its correctness)",
     ])
     print(f"{PROP} {tier}: evaluations={total.get('evaluations')} histories={total.get('histories')} nontrivial={total.get('distinct_nontrivial')} "
           f"violations={total.get('violations_total')} (unlisted {new}) exhaustive={complete} wall={time.time() - t0:.1f}s")
